@@ -3,9 +3,12 @@ package main
 import (
 	"fmt"
 	"math/rand"
+	"os"
+	"path/filepath"
 	"sort"
 	"strings"
 
+	"github.com/oapi-codegen/oapi-codegen/v2/pkg/codegen"
 	"github.com/oapi-codegen/oapi-codegen/v2/pkg/util"
 	"gopkg.in/yaml.v2"
 
@@ -69,6 +72,42 @@ func runC20Flags(r *Report, rng *rand.Rand, thorough bool, bin, dir, specPath st
 	}
 	cases.WriteTo(r)
 
+	// every filter flag given on the command line alone (no configuration file, and with a file that only names the
+	// package): the resolved configuration must carry it, and the output must be the library's for that configuration
+	for _, fc := range []struct {
+		flag, val string
+		set       func(*codegen.Configuration)
+	}{
+		{"-include-tags", "t1", func(c *codegen.Configuration) { c.OutputOptions.IncludeTags = []string{"t1"} }},
+		{"-exclude-tags", "t1", func(c *codegen.Configuration) { c.OutputOptions.ExcludeTags = []string{"t1"} }},
+		{"-include-operation-ids", "get_thing_by_id", func(c *codegen.Configuration) { c.OutputOptions.IncludeOperationIDs = []string{"get_thing_by_id"} }},
+		{"-exclude-operation-ids", "get_thing_by_id", func(c *codegen.Configuration) { c.OutputOptions.ExcludeOperationIDs = []string{"get_thing_by_id"} }},
+		{"-exclude-schemas", "Unused", func(c *codegen.Configuration) { c.OutputOptions.ExcludeSchemas = []string{"Unused"} }},
+		{"-response-type-suffix", "Resp", func(c *codegen.Configuration) { c.OutputOptions.ResponseTypeSuffix = "Resp" }},
+	} {
+		pkgOnly := filepath.Join(dir, "pkgonly.yaml")
+		must(os.WriteFile(pkgOnly, []byte("package: api\n"), 0o644))
+		for _, withFile := range []bool{false, true} {
+			args := []string{"-package", "api", "-generate", "types,chi-server,client", fc.flag, fc.val}
+			if withFile {
+				args = append([]string{"-config", pkgOnly}, args...)
+			}
+			res := runCLI(bin, dir, append(args, specPath)...)
+			var want codegen.Configuration
+			want.PackageName = "api"
+			want.Generate = codegen.GenerateOptions{Models: true, ChiServer: true, Client: true}
+			fc.set(&want)
+			r.Count(fmt.Sprintf("filter-flag:%s/%v", fc.flag, withFile), true)
+			r.Dist["family=legacy-filter-flags"]++
+			wantOut, err := generate(c17SpecForCLI(specPath), want)
+			if err != nil {
+				continue
+			}
+			if res.exit != 0 || maskHeader(res.stdout) != maskHeader(wantOut) {
+				r.Violate("command_line_filter_flag_differs_from_library", fmt.Sprintf("%s %s (configuration file naming only the package: %v): exit %d; %s", fc.flag, fc.val, withFile, res.exit, firstLineDiff(maskHeader(wantOut), maskHeader(res.stdout))), map[string]any{"args": args})
+			}
+		}
+	}
 	// through the binary: what the flag resolves to, as printed by -output-config
 	for _, tc := range []struct {
 		flag string
@@ -95,4 +134,11 @@ func runC20Flags(r *Report, rng *rand.Rand, thorough bool, bin, dir, specPath st
 			r.Violate("legacy_import_mapping_flag_misread", fmt.Sprintf("-import-mapping %s resolved to %v (exit %d), the documented grammar gives %v", tc.flag, got.ImportMapping, res.exit, tc.want), map[string]any{"flag": tc.flag})
 		}
 	}
+}
+
+// c17SpecForCLI reads the document the binary is run on
+func c17SpecForCLI(specPath string) []byte {
+	b, err := os.ReadFile(specPath)
+	must(err)
+	return b
 }
